@@ -158,7 +158,7 @@ def removeTask (ws : List Waiter) (i : Nat) : List Waiter := ws.filter (fun w =>
 def insertW (w : Waiter) : List Waiter → List Waiter
   | [] => [w]
   | x :: xs => if w.key < x.key then w :: x :: xs else x :: insertW w xs
-def popOrder (ws : List Waiter) : List Waiter := ws.reverse.foldl (fun acc w => insertW w acc) []
+def popOrder (ws : List Waiter) : List Waiter := ws.foldl (fun acc w => insertW w acc) []
 
 /-- `_wake_up_first` (repaired): nothing while a queued waiter's future is done; otherwise the
     head's future gets its result, and if that task still has its wakeup registered
